@@ -151,9 +151,10 @@ fn dim_of(main: u8, dsel: u8) -> usize {
     DIMS[i % 3]
 }
 
-fn vspec(main: u8) -> impl Strategy<Value = VSpec> {
+fn vspec(main: u8, mixed: bool) -> impl Strategy<Value = VSpec> {
+    let hi = if mixed { 8u8 } else { 6u8 };
     prop_oneof![
-        4 => (0u8..8).prop_flat_map(move |dsel| fresh(dim_of(main, dsel))).prop_map(VSpec::Fresh),
+        4 => (0u8..hi).prop_flat_map(move |dsel| fresh(dim_of(main, dsel))).prop_map(VSpec::Fresh),
         1 => (any::<u16>(), 0u8..6).prop_map(|(i, f)| VSpec::Dup(i, f)),
     ]
 }
@@ -181,8 +182,8 @@ fn realize(specs: Vec<VSpec>, main: u8) -> Vec<Vec<f32>> {
     pool
 }
 
-fn pool_strategy(main: u8, lo: usize, hi: usize) -> impl Strategy<Value = Vec<Vec<f32>>> {
-    prop::collection::vec(vspec(main), lo..=hi).prop_map(move |s| realize(s, main))
+fn pool_strategy(main: u8, mixed: bool, lo: usize, hi: usize) -> impl Strategy<Value = Vec<Vec<f32>>> {
+    prop::collection::vec(vspec(main, mixed), lo..=hi).prop_map(move |s| realize(s, main))
 }
 
 // ------------------------------------------------------------------ queries, k, filters
@@ -256,7 +257,7 @@ pub fn ops_strategy(_t: Tier) -> impl Strategy<Value = Case> {
     (0u8..3, cfg_strategy()).prop_flat_map(|(main, (cfg, coll))| {
         // the collection's fixed dimension, when set, is mostly the main dimension
         let coll = CollCfg { dim: coll.dim.map(|d| if d == 0 { (main + 1) % 3 } else { main }), ..coll };
-        (pool_strategy(main, 3, 12), prop::collection::vec(op_strategy(main, 7, 5), 0..=40))
+        (pool_strategy(main, true, 3, 12), prop::collection::vec(op_strategy(main, 7, 5), 0..=40))
             .prop_map(move |(pool, ops)| Case { cfg: cfg.clone(), coll: coll.clone(), pool, ops })
     })
 }
@@ -264,9 +265,9 @@ pub fn ops_strategy(_t: Tier) -> impl Strategy<Value = Case> {
 /// Bulk histories: one dimension dominates, 20..90 vectors stored up front by one batch, then a short
 /// history; exercises top-k truncation/ordering on larger sets and a non-degenerate HNSW graph.
 pub fn bulk_strategy(_t: Tier) -> impl Strategy<Value = Case> {
-    (0u8..3, cfg_strategy()).prop_flat_map(|(main, (cfg, coll))| {
+    (0u8..3, cfg_strategy(), prop::bool::weighted(0.3)).prop_flat_map(|(main, (cfg, coll), mixed)| {
         let coll = CollCfg { dim: coll.dim.map(|_| main), ..coll };
-        (pool_strategy(main, 20, 90), prop::collection::vec(op_strategy(main, 100, 5), 1..=14), 0u8..=12).prop_map(move |(pool, tail, ncoll)| {
+        (pool_strategy(main, mixed, 20, 90), prop::collection::vec(op_strategy(main, 100, 5), 1..=14), 0u8..=12).prop_map(move |(pool, tail, ncoll)| {
             let mut ops = vec![Op::StoreAll, Op::CStoreSome { n: ncoll }];
             ops.extend(tail);
             Case { cfg: cfg.clone(), coll: coll.clone(), pool, ops }
